@@ -2,6 +2,8 @@
 pm_c05: model driver for C05.  One case = one logged bitmap history.  Lines:
 
   kind slice|btree               collection of the live bitmap (first line)                 → ok
+  failat j k                     arm the OpWriter: its j-th next Write (0 = the next one) returns
+                                 an error after taking k bytes (k = 0: clean failure)       → ok
   add v ... / remove v ...       Bitmap.Add / Remove with an OpWriter                       → b=<changed> log=<hex> ops=<n> opN=<n>
   addn v ... / removen v ...     AddN / RemoveN                                             → n=<changed> a=[..] log=<hex> ops=<n> opN=<n>
   import set|clear v,v,.. <hex>  ImportRoaringBits(payload=<hex>, clear, log=true); the
@@ -12,6 +14,10 @@ pm_c05: model driver for C05.  One case = one logged bitmap history.  Lines:
   reopen slice|btree             same, and the decoded bitmap becomes the live one
                                  (its OpWriter keeps appending to the same log)             → same as check
 
+Every mutation line ends with `live=[set]` (the live bitmap read back) and carries `err=write`
+when the call returned an error.  Tags `c05-import-write-fails` (an import whose write failed:
+applied but not logged) and `c05-short-write` (bytes of a torn op left in the log) mark the known
+deviations from "a failed write changes nothing"; they stick to the rest of the case.
 `log=<hex>` are the bytes the line appended to the OpWriter (model: `encode fnv32a`).  `#spec`
 is computed from the abstract set: the decoded state must equal the live set, `ops` = number of
 operations logged since the snapshot, `opN` = the sum of their documented change counts.
@@ -55,13 +61,28 @@ structure D (σ : Type) where
   sops : Nat
   sopN : Nat
   tbl : Tbl
+  /-- armed writer failure: the `j`-th next Write fails after `k` bytes -/
+  pend : Option (Nat × Nat) := none
+  /-- tag of a known deviation this case has run into (sticky) -/
+  poison : String := ""
 
 inductive St where
   | none
   | bt (d : D BT)
   | sc (d : D SC)
 
-def freshD {σ : Type} (C : Coll σ) : D σ := ⟨⟨BM.init C, [], 0, 0⟩, [], [], 0, 0, []⟩
+def freshD {σ : Type} (C : Coll σ) : D σ := { live := ⟨BM.init C, [], 0, 0⟩, snap := [], s := [], sops := 0, sopN := 0, tbl := [] }
+
+/-- Outcomes of the next `n` Write calls and what stays armed afterwards. -/
+def outsFor (pend : Option (Nat × Nat)) (n : Nat) : List WOut × Option (Nat × Nat) × Option (Nat × Nat) :=
+  match pend with
+  | none => ([], none, none)
+  | some (j, k) => if j < n then (List.replicate j .ok ++ [.fail k], none, some (j, k)) else ([], some (j - n, k), none)
+
+def tagOf {σ : Type} (d : D σ) (t : String) : String := if d.poison = "" then t else d.poison
+
+def errS (e : Bool) : String := if e then " err=write" else ""
+
 
 /-- A bitmap of collection `C` holding exactly the snapshot's set (the result of decoding the
 snapshot part of the file; ops = opN = 0). -/
@@ -82,49 +103,73 @@ def checkStr {σ σ' : Type} (C : Coll σ) (C' : Coll σ') (d : D σ) : Ans :=
   let liveM := stateStr (slice C d.live.bm) d.live.ops d.live.opN
   let liveS := stateStr d.s d.sops d.sopN
   match decodeInto C C' d with
-  | none => ans2 s!"dec=err | live={liveM}" s!"dec={liveS} | live={liveS}" "c05-check"
-  | some r => ans2 s!"dec={stateStr (slice C' r.1) r.2.1 r.2.2} | live={liveM}" s!"dec={liveS} | live={liveS}" "c05-check"
+  | none => ans2 s!"dec=err | live={liveM}" s!"dec={liveS} | live={liveS}" (tagOf d "c05-check")
+  | some r => ans2 s!"dec={stateStr (slice C' r.1) r.2.1 r.2.2} | live={liveM}" s!"dec={liveS} | live={liveS}" (tagOf d "c05-check")
 
 def stepD {σ : Type} (C : Coll σ) (d : D σ) (ws : List String) : D σ × Ans :=
   let bad := (d, ans "bad-op")
   match ws with
+  | ["failat", j, k] => match j.toNat?, k.toNat? with
+    | some j, some k => ({ d with pend := some (j, k) }, ans "ok")
+    | _, _ => bad
   | "add" :: vs => match natList? vs with
     | some vs =>
-      let r := lAdd C pol fnv32a d.live vs
-      let sr := Spec.step d.s (.add vs)
-      let d' : D σ := { d with live := r.1, s := sr.1, sops := d.sops + vs.length, sopN := d.sopN + vs.length }
-      let lg := logged d.live r.1
-      (d', ans2 s!"b={showBool r.2} log={lg} {counters r.1.ops r.1.opN}"
-              s!"b={showBool (vs.any fun v => !d.s.contains v)} log={lg} {counters d'.sops d'.sopN}" "c05-add")
+      let o := outsFor d.pend vs.length
+      let r := lAddW C pol fnv32a d.live false vs o.1
+      -- what the specification allows: the values before the failing write, logged and applied
+      let nOk := match o.2.2 with | some (j, _) => j | none => vs.length
+      let clean := lAddW C pol fnv32a d.live false vs (o.1.map (fun w => match w with | .fail _ => .fail 0 | x => x))
+      let short : Bool := match o.2.2 with | some (_, k) => decide (k > 0) | none => false
+      let d' : D σ := { d with live := r.1, s := Spec.addAll d.s (vs.take nOk), sops := d.sops + nOk, sopN := d.sopN + nOk,
+                               pend := o.2.1, poison := if d.poison = "" ∧ short = true then "c05-short-write" else d.poison }
+      let sb := if o.2.2.isSome then false else (vs.any fun v => !d.s.contains v)
+      (d', ans2 s!"b={showBool r.2.1}{errS r.2.2} log={logged d.live r.1} {counters r.1.ops r.1.opN} live={showNats (slice C r.1.bm)}"
+              s!"b={showBool sb}{errS o.2.2.isSome} log={logged d.live clean.1} {counters d'.sops d'.sopN} live={showNats d'.s}" (tagOf d' "c05-add"))
     | none => bad
   | "remove" :: vs => match natList? vs with
     | some vs =>
-      let r := lRemove C pol fnv32a d.live vs
-      let sr := Spec.step d.s (.remove vs)
-      let d' : D σ := { d with live := r.1, s := sr.1, sops := d.sops + vs.length, sopN := d.sopN + vs.length }
-      let lg := logged d.live r.1
-      (d', ans2 s!"b={showBool r.2} log={lg} {counters r.1.ops r.1.opN}"
-              s!"b={showBool (vs.any fun v => d.s.contains v)} log={lg} {counters d'.sops d'.sopN}" "c05-remove")
+      let o := outsFor d.pend vs.length
+      let r := lRemoveW C pol fnv32a d.live false vs o.1
+      let nOk := match o.2.2 with | some (j, _) => j | none => vs.length
+      let clean := lRemoveW C pol fnv32a d.live false vs (o.1.map (fun w => match w with | .fail _ => .fail 0 | x => x))
+      let short : Bool := match o.2.2 with | some (_, k) => decide (k > 0) | none => false
+      let d' : D σ := { d with live := r.1, s := Spec.removeAll d.s (vs.take nOk), sops := d.sops + nOk, sopN := d.sopN + nOk,
+                               pend := o.2.1, poison := if d.poison = "" ∧ short = true then "c05-short-write" else d.poison }
+      let sb := if o.2.2.isSome then false else (vs.any fun v => d.s.contains v)
+      (d', ans2 s!"b={showBool r.2.1}{errS r.2.2} log={logged d.live r.1} {counters r.1.ops r.1.opN} live={showNats (slice C r.1.bm)}"
+              s!"b={showBool sb}{errS o.2.2.isSome} log={logged d.live clean.1} {counters d'.sops d'.sopN} live={showNats d'.s}" (tagOf d' "c05-remove"))
     | none => bad
   | "addn" :: vs => match natList? vs with
     | some vs =>
-      let r := lAddN C pol fnv32a d.live vs
+      let o := outsFor d.pend (if vs.isEmpty then 0 else 1)
+      let out := o.1.headD .ok
+      let r := lAddNW C pol fnv32a d.live vs out
+      let failed := o.2.2.isSome
+      let short : Bool := match o.2.2 with | some (_, k) => decide (k > 0) | none => false
       let pre := Spec.newly d.s vs
-      let d' : D σ := { d with live := r.1, s := Spec.addAll d.s vs,
-                               sops := if vs.isEmpty then d.sops else d.sops + 1, sopN := d.sopN + pre.length }
-      let lg := logged d.live r.1
-      (d', ans2 s!"n={r.2.length} a={showNats (r.2 ++ vs.drop r.2.length)} log={lg} {counters r.1.ops r.1.opN}"
-              s!"n={pre.length} a={showNats (pre ++ vs.drop pre.length)} log={lg} {counters d'.sops d'.sopN}" "c05-addn")
+      let d' : D σ := if failed then { d with live := r.1, pend := o.2.1,
+                                              poison := if d.poison = "" ∧ short = true then "c05-short-write" else d.poison }
+        else { d with live := r.1, s := Spec.addAll d.s vs, pend := o.2.1,
+                      sops := if vs.isEmpty then d.sops else d.sops + 1, sopN := d.sopN + pre.length }
+      let slog := if failed then "-" else logged d.live r.1
+      (d', ans2 s!"n={r.2.2.1}{errS r.2.2.2} a={showNats r.2.1} log={logged d.live r.1} {counters r.1.ops r.1.opN} live={showNats (slice C r.1.bm)}"
+              s!"n={if failed then 0 else pre.length}{errS failed} a={showNats (pre ++ vs.drop pre.length)} log={slog} {counters d'.sops d'.sopN} live={showNats d'.s}" (tagOf d' "c05-addn"))
     | none => bad
   | "removen" :: vs => match natList? vs with
     | some vs =>
-      let r := lRemoveN C pol fnv32a d.live vs
+      let o := outsFor d.pend (if vs.isEmpty then 0 else 1)
+      let out := o.1.headD .ok
+      let r := lRemoveNW C pol fnv32a d.live vs out
+      let failed := o.2.2.isSome
+      let short : Bool := match o.2.2 with | some (_, k) => decide (k > 0) | none => false
       let pre := Spec.gone d.s vs
-      let d' : D σ := { d with live := r.1, s := Spec.removeAll d.s vs,
-                               sops := if vs.isEmpty then d.sops else d.sops + 1, sopN := d.sopN + pre.length }
-      let lg := logged d.live r.1
-      (d', ans2 s!"n={r.2.length} a={showNats (r.2 ++ vs.drop r.2.length)} log={lg} {counters r.1.ops r.1.opN}"
-              s!"n={pre.length} a={showNats (pre ++ vs.drop pre.length)} log={lg} {counters d'.sops d'.sopN}" "c05-removen")
+      let d' : D σ := if failed then { d with live := r.1, pend := o.2.1,
+                                              poison := if d.poison = "" ∧ short = true then "c05-short-write" else d.poison }
+        else { d with live := r.1, s := Spec.removeAll d.s vs, pend := o.2.1,
+                      sops := if vs.isEmpty then d.sops else d.sops + 1, sopN := d.sopN + pre.length }
+      let slog := if failed then "-" else logged d.live r.1
+      (d', ans2 s!"n={r.2.2.1}{errS r.2.2.2} a={showNats r.2.1} log={logged d.live r.1} {counters r.1.ops r.1.opN} live={showNats (slice C r.1.bm)}"
+              s!"n={if failed then 0 else pre.length}{errS failed} a={showNats (pre ++ vs.drop pre.length)} log={slog} {counters d'.sops d'.sopN} live={showNats d'.s}" (tagOf d' "c05-removen"))
     | none => bad
   | ["import", mode, csv, hx] =>
     match csvNats? csv, unhex hx with
@@ -132,18 +177,23 @@ def stepD {σ : Type} (C : Coll σ) (d : D σ) (ws : List String) : D σ × Ans 
       if mode ≠ "set" ∧ mode ≠ "clear" then bad else
       let clear := mode = "clear"
       let gs := groupVals vs
-      let r := lImport C pol fnv32a d.live clear pl gs
+      let o := outsFor d.pend 1
+      let out := o.1.headD .ok
+      let r := lImportW C pol fnv32a d.live clear pl gs out
+      let failed := o.2.2.isSome
       let sr := Spec.step d.s (if clear then .importClear gs else .importSet gs)
       let n := match sr.2 with | .imported n => n | _ => 0
-      let d' : D σ := { d with live := r.1, s := sr.1, sops := d.sops + 1, sopN := d.sopN + n,
-                               tbl := (pl, gs) :: d.tbl }
-      let lg := logged d.live r.1
-      (d', ans2 s!"n={r.2} log={lg} {counters r.1.ops r.1.opN}"
-              s!"n={n} log={lg} {counters d'.sops d'.sopN}" "c05-import")
+      -- a failed write must leave everything as it was (the code does not: known finding)
+      let d' : D σ := if failed then { d with live := r.1, pend := o.2.1, tbl := (pl, gs) :: d.tbl,
+                                              poison := if d.poison = "" then "c05-import-write-fails" else d.poison }
+        else { d with live := r.1, s := sr.1, sops := d.sops + 1, sopN := d.sopN + n, tbl := (pl, gs) :: d.tbl, pend := o.2.1 }
+      let slog := if failed then "-" else logged d.live r.1
+      (d', ans2 s!"n={r.2.1}{errS r.2.2} log={logged d.live r.1} {counters r.1.ops r.1.opN} live={showNats (slice C r.1.bm)}"
+              s!"n={n}{errS failed} log={slog} {counters d'.sops d'.sopN} live={showNats d'.s}" (tagOf d' "c05-import"))
     | _, _ => bad
   | ["snap"] =>
     let d' : D σ := { d with live := { d.live with log := [], ops := 0, opN := 0 }, snap := d.s, sops := 0, sopN := 0 }
-    (d', ans2 (counters 0 0) (counters 0 0) "c05-snap")
+    (d', ans2 (counters 0 0) (counters 0 0) (tagOf d "c05-snap"))
   | _ => bad
 
 def stepSt (st : St) (ws : List String) : St × Ans :=
@@ -165,7 +215,8 @@ def stepSt (st : St) (ws : List String) : St × Ans :=
           let a := checkStr btColl scColl d
           if op = "check" then (st, a) else
           match decodeInto btColl scColl d with
-          | some r => (.sc ⟨⟨r.1, d.live.log, r.2.1, r.2.2⟩, d.snap, d.s, d.sops, d.sopN, d.tbl⟩, a)
+          | some r => (.sc { live := ⟨r.1, d.live.log, r.2.1, r.2.2⟩, snap := d.snap, s := d.s, sops := d.sops,
+                             sopN := d.sopN, tbl := d.tbl, pend := d.pend, poison := d.poison }, a)
           | none => (st, a)
       | .sc d =>
         if kind = "slice" then
@@ -178,7 +229,8 @@ def stepSt (st : St) (ws : List String) : St × Ans :=
           let a := checkStr scColl btColl d
           if op = "check" then (st, a) else
           match decodeInto scColl btColl d with
-          | some r => (.bt ⟨⟨r.1, d.live.log, r.2.1, r.2.2⟩, d.snap, d.s, d.sops, d.sopN, d.tbl⟩, a)
+          | some r => (.bt { live := ⟨r.1, d.live.log, r.2.1, r.2.2⟩, snap := d.snap, s := d.s, sops := d.sops,
+                             sopN := d.sopN, tbl := d.tbl, pend := d.pend, poison := d.poison }, a)
           | none => (st, a)
     else
       match st with
